@@ -13,6 +13,9 @@ package main
 //   x, _ := f(data) / x, _, err := f(data)                      peek (remaining slice thrown away)
 //   attr, data, err = unmarshalAttrs(data) / unmarshalExtensionPair / return unmarshalFileStat(flags, b)
 //   … unmarshalStatus(id, data) …                               status (ends the case)
+//   … statusOrUnexpectedOK(id, data) …                          the same, through the helper whose body must be
+//                                                               `if err := normaliseError(unmarshalStatus(id, data)); err != nil { return err }; return errUnexpectedOK`
+//   if v, data, e := unmarshal…Safe(data); e != nil {…} else …  checked primitive as the init of an if/else-if chain
 //   if len(data) < K {…}                                        makes the next unchecked u32/u64 safe
 //   if sid != id {…} [else {…}]   if count != K {…}   if flags&C == C {…}
 //   if l > len(data) [|| l > bufbound] {…} [else {…}]           makes the next data[:l] / buf[:l] safe
@@ -26,6 +29,7 @@ import (
 	"go/ast"
 	"go/token"
 	"go/types"
+	"sort"
 	"strings"
 )
 
@@ -115,6 +119,8 @@ type rwalk struct {
 	nsteps   int // decoding steps emitted so far at the top level of this case (for `head`)
 	depth    int
 
+	viaOKHelper bool // the status of this case is decoded through statusOrUnexpectedOK
+
 	lenGuard   int64 // from `if len(data) < K`
 	sliceGuard bool  // from `if l > len(data)`
 	bufGuard   bool
@@ -148,12 +154,17 @@ func (w *rwalk) mentionsCur(n ast.Node) bool {
 	return found
 }
 
+// rpStatusHelper: the client.go wrapper around unmarshalStatus that never returns nil.
+const rpStatusHelper = "statusOrUnexpectedOK"
+
+func rpIsStatusCall(name string) bool { return name == "unmarshalStatus" || name == rpStatusHelper }
+
 func rpDecoderCalls(n ast.Node) []*ast.CallExpr {
 	var out []*ast.CallExpr
 	ast.Inspect(n, func(m ast.Node) bool {
 		if c, ok := m.(*ast.CallExpr); ok {
 			if id, ok := c.Fun.(*ast.Ident); ok {
-				if _, ok := replyDecoders[id.Name]; ok || id.Name == "unmarshalStatus" {
+				if _, ok := replyDecoders[id.Name]; ok || rpIsStatusCall(id.Name) {
 					out = append(out, c)
 				}
 			}
@@ -302,11 +313,14 @@ func (w *rwalk) walk(stmts []ast.Stmt) (prog []rstep, done bool) {
 			case *ast.ReturnStmt, *ast.AssignStmt, *ast.ExprStmt:
 				isSimple = true
 			}
-			if id := calls[0].Fun.(*ast.Ident); id.Name == "unmarshalStatus" && isSimple {
+			if id := calls[0].Fun.(*ast.Ident); rpIsStatusCall(id.Name) && isSimple {
 				c := calls[0]
 				if len(calls) != 1 || len(c.Args) != 2 || exprString(c.Args[1]) != w.cur {
-					w.fail(st, "unrecognised unmarshalStatus call")
+					w.fail(st, "unrecognised %s call", id.Name)
 					return prog, true
+				}
+				if id.Name == rpStatusHelper {
+					w.viaOKHelper = true
 				}
 				idArg := exprString(c.Args[0])
 				if idArg == w.lastVar && w.lastVar != "" {
@@ -391,6 +405,28 @@ func (w *rwalk) walk(stmts []ast.Stmt) (prog []rstep, done bool) {
 
 		case *ast.IfStmt:
 			if t.Init != nil {
+				// `if v, data, e := unmarshal…Safe(data); e != nil { err = e } else …`
+				if ias, ok := t.Init.(*ast.AssignStmt); ok && len(ias.Rhs) == 1 {
+					ic := rpDecoderCalls(ias)
+					if len(ic) == 1 && ias.Rhs[0] == ast.Expr(ic[0]) && !rpIsStatusCall(ic[0].Fun.(*ast.Ident).Name) &&
+						len(rpDecoderCalls(t.Cond)) == 0 && len(rpDecoderCalls(t.Body)) == 0 &&
+						(rpTerminates(t.Body) || (rpSetsErr(t.Body) && (t.Else != nil || next == nil))) {
+						check := &ast.IfStmt{If: t.If, Cond: t.Cond, Body: t.Body}
+						steps, skip, _, fin := w.decode(ias, ic[0], check, []ast.Stmt{check})
+						prog = append(prog, steps...)
+						if skip != 1 || fin {
+							w.fail(st, "the error of the decoder in the if-init is not what the condition tests")
+						}
+						if t.Else != nil {
+							p, d := w.walkElse(t.Else)
+							prog = append(prog, p...)
+							if d {
+								return prog, true
+							}
+						}
+						continue
+					}
+				}
 				if w.mentionsCur(t) || len(calls) > 0 {
 					w.fail(st, "unrecognised if with init statement")
 				}
@@ -486,6 +522,8 @@ func (w *rwalk) walk(stmts []ast.Stmt) (prog []rstep, done bool) {
 			}
 			if w.mentionsCur(st) || len(calls) > 0 {
 				w.fail(st, "unrecognised if %q touching the reply bytes", condTxt)
+			} else if w.lastVar != "" && rpMentionsIdent(cond, w.lastVar) {
+				w.fail(st, "unrecognised condition %q on a value read from the reply", condTxt)
 			}
 			continue
 
@@ -532,6 +570,17 @@ func (w *rwalk) walk(stmts []ast.Stmt) (prog []rstep, done bool) {
 		}
 	}
 	return prog, false
+}
+
+func rpMentionsIdent(n ast.Node, name string) bool {
+	found := false
+	ast.Inspect(n, func(m ast.Node) bool {
+		if id, ok := m.(*ast.Ident); ok && id.Name == name {
+			found = true
+		}
+		return !found
+	})
+	return found
 }
 
 func rpIsIDExpr(s string) bool { return s == "id" || strings.HasSuffix(s, ".id") }
@@ -893,6 +942,17 @@ func extractReplies(x *extractor) {
 	u.pf("def recvGuaranteedLen : Nat := %d\n\n", recvLen)
 
 	// 3. the reply sites of client.go
+	// the helper `statusOrUnexpectedOK(id, data)`: unmarshalStatus on the same bytes, nil turned into an error
+	helperOK := false
+	var viaHelper []string
+	if fd := pi.funcDecl(rpStatusHelper); fd != nil {
+		canon := "{ if err := normaliseError(unmarshalStatus(id, data)); err != nil { return err } return errUnexpectedOK }"
+		sig := pi.nodeText(fd.Type)
+		helperOK = pi.bodyText(fd) == canon && sig == "func(id uint32, data []byte) error"
+		if !helperOK {
+			u.fail("%s: unexpected signature %q or body %q", rpStatusHelper, sig, pi.bodyText(fd))
+		}
+	}
 	var rows []replyRow
 	type dflt struct {
 		fn string
@@ -919,6 +979,9 @@ func extractReplies(x *extractor) {
 			}
 			if !known[key] && len(sws) > 0 {
 				u.fail("%s: reply switch at %s in a function that is not in the C20 list", key, pi.pos(sws[0]))
+			}
+			if key == rpStatusHelper && helperOK {
+				continue
 			}
 			if !known[key] && key != "Client.recvVersion" {
 				// no other function of client.go may decode server bytes by hand
@@ -974,6 +1037,12 @@ func extractReplies(x *extractor) {
 					prog, _ := w.walk(cc.Body)
 					for _, t := range typs {
 						rows = append(rows, replyRow{key, t, prog, pi.pos(cc)})
+					}
+					if w.viaOKHelper {
+						viaHelper = append(viaHelper, key)
+						if !helperOK {
+							u.fail("%s: status decoded through %s whose body is not the expected one (%s)", key, rpStatusHelper, pi.pos(cc))
+						}
 					}
 				}
 				defaults = append(defaults, dflt{key, hasDefault})
@@ -1034,6 +1103,18 @@ func extractReplies(x *extractor) {
 		parts = append(parts, fmt.Sprintf("  (%s, %d, %s) -- %s", leanStr(r.fn), r.typ, rpLeanProg(r.prog), r.pos))
 	}
 	u.pf("def handshakeReplies : List (String × Nat × List RStep) := [\n%s\n]\n\n", rpJoinRows(parts))
+
+	// 4b. the functions whose successful reply carries data must not take an OK status for success
+	wantHelper := []string{"Client.opendir", "Client.Lstat", "Client.ReadLink", "Client.open", "Client.stat", "Client.fstat", "Client.StatVFS", "Client.RealPath"}
+	sortedEq := func(a, b []string) bool {
+		a, b = append([]string(nil), a...), append([]string(nil), b...)
+		sort.Strings(a)
+		sort.Strings(b)
+		return strings.Join(a, ",") == strings.Join(b, ",")
+	}
+	u.pf("-- the functions that decode their STATUS case through %s (an OK status is an error for them)\n", rpStatusHelper)
+	u.pf("def statusViaOKHelper : List String := %s\n", leanStrList(viaHelper))
+	u.pf("def dataRepliesRejectOKStatus : Bool := %s\n\n", leanBool(helperOK && sortedEq(viaHelper, wantHelper)))
 
 	// 5. id checks
 	statusChecks := false
